@@ -20,7 +20,7 @@ Proof. intros; unfold to_byte; apply Z.mod_small; lia. Qed.
 
 (* the character after a backslash, when it is not a digit or a line break *)
 Lemma scan_escape_char : forall c tail, is_byte c = true -> is_dec c = false -> c <> 10 -> c <> 13 ->
-  scan_escape (c :: tail) = ([esc_value c], tail).
+  scan_escape (c :: tail) = Some ([esc_value c], tail).
 Proof.
   intros c tail Hb Hd H10 H13. unfold scan_escape. rewrite next_raw by assumption.
   unfold esc_value. unfold is_byte in Hb.
@@ -41,18 +41,19 @@ Qed.
 Definition head_nondigit (s : bytes) : Prop := is_dec (peek s) = false.
 
 Lemma scan_escape_dec1 : forall d tail, 0 <= d <= 9 -> head_nondigit tail ->
-  scan_escape ((48 + d) :: tail) = ([d], tail).
+  scan_escape ((48 + d) :: tail) = Some ([d], tail).
 Proof.
   intros d tail Hd Hn. unfold scan_escape. rewrite next_raw by lia.
   repeat match goal with |- context [if (48 + d =? ?k) then _ else _] =>
     let E := fresh in destruct (48 + d =? k) eqn:E; [exfalso; lia|] end.
   replace (is_dec (48 + d)) with true by (unfold is_dec; lia).
   unfold head_nondigit in Hn. rewrite Hn.
-  replace (48 + d - 48) with d by lia. rewrite to_byte_id by lia. reflexivity.
+  replace (48 + d - 48) with d by lia. unfold dec_escape. replace (255 <? d) with false by lia.
+  rewrite to_byte_id by lia. reflexivity.
 Qed.
 
 Lemma scan_escape_dec2 : forall d1 d2 tail, 0 <= d1 <= 9 -> 0 <= d2 <= 9 -> head_nondigit tail ->
-  scan_escape ((48 + d1) :: (48 + d2) :: tail) = ([d1 * 10 + d2], tail).
+  scan_escape ((48 + d1) :: (48 + d2) :: tail) = Some ([d1 * 10 + d2], tail).
 Proof.
   intros d1 d2 tail H1 H2 Hn. unfold scan_escape. rewrite next_raw by lia.
   repeat match goal with |- context [if (48 + d1 =? ?k) then _ else _] =>
@@ -61,12 +62,13 @@ Proof.
   cbn [peek tl]. replace (is_dec (48 + d2)) with true by (unfold is_dec; lia).
   unfold head_nondigit in Hn. rewrite Hn.
   replace (48 + d1 - 48) with d1 by lia. replace (48 + d2 - 48) with d2 by lia.
+  unfold dec_escape. replace (255 <? d1 * 10 + d2) with false by lia.
   rewrite to_byte_id by lia. reflexivity.
 Qed.
 
 Lemma scan_escape_dec3 : forall d1 d2 d3 tail, 0 <= d1 <= 9 -> 0 <= d2 <= 9 -> 0 <= d3 <= 9 ->
   d1 * 100 + d2 * 10 + d3 <= 255 ->
-  scan_escape ((48 + d1) :: (48 + d2) :: (48 + d3) :: tail) = ([d1 * 100 + d2 * 10 + d3], tail).
+  scan_escape ((48 + d1) :: (48 + d2) :: (48 + d3) :: tail) = Some ([d1 * 100 + d2 * 10 + d3], tail).
 Proof.
   intros d1 d2 d3 tail H1 H2 H3 Hv. unfold scan_escape. rewrite next_raw by lia.
   repeat match goal with |- context [if (48 + d1 =? ?k) then _ else _] =>
@@ -76,11 +78,12 @@ Proof.
   replace (is_dec (48 + d3)) with true by (unfold is_dec; lia).
   replace (48 + d1 - 48) with d1 by lia. replace (48 + d2 - 48) with d2 by lia.
   replace (48 + d3 - 48) with d3 by lia.
+  unfold dec_escape. replace (255 <? d1 * 100 + d2 * 10 + d3) with false by lia.
   rewrite to_byte_id by lia. reflexivity.
 Qed.
 
 Lemma scan_escape_nl : forall f tail, head_not 13 tail -> head_not 10 tail ->
-  scan_escape (nl_bytes f ++ tail) = ([10], tail).
+  scan_escape (nl_bytes f ++ tail) = Some ([10], tail).
 Proof.
   intros f tail H13 H10. unfold scan_escape.
   assert (Hn : next (nl_bytes f ++ tail) = (10, tail)).
